@@ -21,12 +21,14 @@ const char* P = "C08";
 struct LeafRec {
   int chan_plan = dk::VALUE; int on_stop = 1;
   bool connected = false, started = false, completed = false, destroyed = false, stop_seen = false;
+  bool connect_throws = false, spawn_threw = false;   // spawn() of this leaf fails in connect(): the exception leaves spawn(), nothing was admitted, the scope's count is unchanged
   long t_spawn_begin = -1, t_spawn_end = -1, t_started = -1, t_completed = -1, t_stop_seen = -1;
   void* op = nullptr; void (*complete)(void*, int) = nullptr;
 };
 struct World { std::vector<LeafRec> leaves; std::vector<int> pending; bool spawners_done = false; long t_close_begin = -1, t_close_sender_done = -1; int close_signals = 0; long t_stop_req_end = -1; };
 World* g_w;
 
+struct ConnectFailure { int id; };
 struct LeafSender {
   int id;
   template <template <class...> class Var, template <class...> class Tup> using value_types = Var<Tup<>>;
@@ -74,7 +76,10 @@ struct LeafSender {
       else unifex::set_done(std::move(r));
     }
   };
-  template <class R> friend Op<remove_cvref_t<R>> tag_invoke(tag_t<connect>, LeafSender s, R&& r) { return Op<remove_cvref_t<R>>{s.id, (R &&) r}; }
+  template <class R> friend Op<remove_cvref_t<R>> tag_invoke(tag_t<connect>, LeafSender s, R&& r) {
+    if (g_w->leaves[(size_t)s.id].connect_throws) { vk::ctx().tr("leaf %d: connect() throws", s.id); throw ConnectFailure{s.id}; }
+    return Op<remove_cvref_t<R>>{s.id, (R &&) r};
+  }
 };
 
 struct CloseRecv {
@@ -98,7 +103,7 @@ void run_script(const Script& sc, bool check, bool& nt) {
       for (int i : sc.spawn[(size_t)t]) {
         auto& L = W.leaves[(size_t)i];
         L.t_spawn_begin = dk::tick(); cx.tr("#%ld S%d: spawn(leaf %d)", L.t_spawn_begin, t, i);
-        scope.spawn(LeafSender{i});
+        try { scope.spawn(LeafSender{i}); } catch (const ConnectFailure&) { L.spawn_threw = true; cx.tr("#%ld S%d: spawn(leaf %d) threw", dk::tick(), t, i); }
         L.t_spawn_end = dk::tick();
         detsched::yield_now();
       }
@@ -144,6 +149,8 @@ void run_script(const Script& sc, bool check, bool& nt) {
   for (size_t i = 0; i < W.leaves.size(); ++i) {
     auto& L = W.leaves[i];
     if (L.t_spawn_begin < 0) continue;
+    if (L.spawn_threw) { if (L.started || L.connected) cx.fail(P, "failed_spawn_ran", "spawn() of leaf %zu threw from connect() but the leaf was connected / started", i); continue; }
+    if (L.connect_throws && !L.spawn_threw) continue;   // (the spawn was refused before connect() was reached: scope already closed)
     if (L.started) {
       admitted++;
       if (!L.completed) cx.fail(P, "leaf_never_completed", "leaf %zu was started but never completed", i);
@@ -173,6 +180,7 @@ void vk_run_case(vk::Choice& c) {
   auto& cx = vk::ctx();
   Script sc; sc.S = 1 + (int)c.upto(2); sc.spawn.resize((size_t)sc.S);
   for (int t = 0; t < sc.S; ++t) { int n = 1 + (int)c.upto(3); for (int k = 0; k < n; ++k) { LeafRec L; L.chan_plan = c.chance(1, 4) ? dk::DONE : dk::VALUE; L.on_stop = c.chance(3, 4) ? 1 : 0; sc.spawn[(size_t)t].push_back((int)sc.leaves.size()); sc.leaves.push_back(L); } }
+  if (cx.argi("legacy", 0) == 0 && c.h % 4 == 0 && !sc.leaves.empty()) { size_t k = (size_t)((c.h / 4) % sc.leaves.size()); sc.leaves[k].connect_throws = true; c.mix(k + 17); cx.label("spawn-with-throwing-connect"); }
   sc.close_kind = (int)c.upto(3); sc.close_yields = (int)c.upto(16); sc.completer_yields = (int)c.upto(4); sc.completer_order = (int)c.upto(2);
   cx.desc = vk::sfmt("v0 scope: spawners=%d leaves=%zu close=%s after %d yields", sc.S, sc.leaves.size(), sc.close_kind == 0 ? "complete" : sc.close_kind == 1 ? "cleanup" : "request_stop+complete", sc.close_yields);
   bool nt = false;
